@@ -56,7 +56,7 @@ TAG_RULES = {'a': ['X', None, 'Z'], 'ab': [None, 'Q']}      # surface -> per-slo
 def mk_filter(e, prog, job):
     f = job['filter']
     if f == 'wsconst':
-        return P.mk_struct(prog, 'KyteaWsConstFilter', char_type=Int(P.TYPE_CODE[job['arg']], 8)), 'KyteaWsConstFilter'
+        return P.wsconst_filter(e, prog, job['arg']), 'KyteaWsConstFilter'
     if f == 'linebreaks':
         return Agg([], ty='SplitLinebreaksFilter'), 'SplitLinebreaksFilter'
     if f == 'graphemes':
@@ -65,7 +65,7 @@ def mk_filter(e, prog, job):
     m = new_map('HashMap')
     for k, v in TAG_RULES.items():
         map_insert(e, m, mk_str(k), Seq([none() if x is None else some(mk_str(x)) for x in v]))
-    return P.mk_struct(prog, 'PatternMatchTagger', rules=m), 'PatternMatchTagger'
+    return P.pattern_tagger(e, prog, m), 'PatternMatchTagger'
 
 
 def make(e, progs, job):
